@@ -120,7 +120,7 @@ func TestExhaustiveWorkPanics(t *testing.T) {
 		}
 	}
 	stats.CaseN(n, n, "exhaustive_work_kind_x_value_x_position")
-	stats.Exhaustive("execution kind (12 work kinds) x panic value (9: nil, error, string, runtime index, nil deref, struct, custom error type, context.Canceled, wrapped context.Canceled) x position (alone, first, last among healthy items)")
+	stats.Exhaustive("execution kind (12 work kinds) x panic value (10: nil, error, string, runtime index, nil deref, struct, custom error type, context.Canceled, wrapped context.Canceled, typed nil error pointer) x position (alone, first, last among healthy items)")
 }
 
 // TestExhaustiveLifecyclePanics enumerates phase x panic value for a module inside a small graph.
@@ -152,7 +152,7 @@ func TestExhaustiveLifecyclePanics(t *testing.T) {
 		}
 	}
 	stats.CaseN(n, n, "exhaustive_lifecycle_phase_x_value_x_module")
-	stats.Exhaustive("lifecycle routine (prep,start,stop) x panic value (9: nil, error, string, runtime index, nil deref, struct, custom error type, context.Canceled, wrapped context.Canceled) x position in a 3-module chain")
+	stats.Exhaustive("lifecycle routine (prep,start,stop) x panic value (10: nil, error, string, runtime index, nil deref, struct, custom error type, context.Canceled, wrapped context.Canceled, typed nil error pointer) x position in a 3-module chain")
 }
 
 func TestPropWorkPanics(t *testing.T) {
